@@ -275,3 +275,15 @@ def check(P: Project, R: Report) -> None:
                     ds = [s for s in walk_local(g.node) if isinstance(s, ast.Assign) and ast.unparse(s.targets[0]) == arg.id and s.lineno < c.lineno]
                     src = ast.unparse(ds[-1].value) if ds else None
                 R.ob("R4", "what is routed is the parsed line", src is not None and src.startswith("parse_message("), f"{g.module.rel}:{c.lineno}", f"routed value defined by `{src}`")
+
+    # what is delivered is what was written: the envelope models the reader validates with rewrite nothing
+    from ..models import ModelTable, config_findings
+
+    T_ = ModelTable(P)
+    cf = [x for x in config_findings(T_) if x[0].ci.module.name == A.MOD_JSONRPC]
+    for m, k, v, effect in cf:
+        R.ob("R4", f"{m.name}: validation of an incoming line leaves its strings as written", False, f"{m.ci.module.rel}:{m.ci.node.lineno}",
+             f"model_config[{k!r}] = {v!r} {effect}: separator-like characters at the ends of an id, a method name or a payload key are removed, so the delivered message differs from the line the child wrote (and two different ids can arrive as one)")
+    if not cf:
+        R.ob("R4", "the envelope models deliver ids, methods and keys as written", True, rel, "", sample="R4 envelope model_config rewrites nothing")
+
